@@ -565,6 +565,13 @@ T_SuggestNone ==
 T_SuggestDone ==
   /\ pc = "suggest" /\ todoN = 0 /\ pc' = "loopend"
   /\ UNCHANGED <<cf, envV, monV, running, seen, batch, snap, done, sstop, lsr, tss, stopReached, exhausted, todoN, cur, todo, exc, stack, pst>>
+\* callback.on_loop_end of an early-removal callback (cf.spec: speculative removal was requested): the checkpoint of
+\* a trial the loop has registered as paused is deleted (which one is the callback's business)
+T_SpecDelete(t) ==
+  /\ pc = "loopend" /\ cf.spec
+  /\ tss[t] = "Paused" /\ t \notin running /\ ck[t] = "present"
+  /\ EvDelete(t)
+  /\ UNCHANGED <<cf, pc, running, seen, batch, snap, done, sstop, lsr, tss, stopReached, exhausted, todoN, cur, todo, exc, stack, pst>>
 T_LoopEnd ==
   /\ pc = "loopend" /\ pc' = "stopcond"
   /\ UNCHANGED <<cf, envV, monV, running, seen, batch, snap, done, sstop, lsr, tss, stopReached, exhausted, todoN, cur, todo, exc, stack, pst>>
@@ -603,7 +610,7 @@ T_Step ==
   \/ \E t \in Trials, s \in Trials : T_Exploit(t, s)
   \/ T_Stop \/ T_StopDel \/ T_Pause \/ T_Remove \/ T_ResultsDone \/ T_Status \/ T_CbComplete
   \/ T_StatusUpdate \/ T_Sched \/ T_Busy \/ T_SuggestNew \/ T_Add \/ (\E t \in Trials : T_SuggestResume(t))
-  \/ T_SuggestNone \/ T_SuggestDone \/ T_LoopEnd \/ T_StopAll \/ T_End
+  \/ T_SuggestNone \/ T_SuggestDone \/ (\E t \in Trials : T_SpecDelete(t)) \/ T_LoopEnd \/ T_StopAll \/ T_End
 
 Next == T_Step \/ W_Step
 
